@@ -181,6 +181,7 @@ class ConsumerRun(object):
         self.mutated_during_download = False
         self.aborted = False
         self.waited = 0           # reads that had to wait for a milestone
+        self.file_bad = False     # a file-level oracle failure was already reported for this history
         self.read_ds = set()      # id() of the Deferreds returned by consumer.read
         self._keep = []           # keeps them alive so the ids stay unique
 
@@ -216,10 +217,11 @@ class ConsumerRun(object):
     def _check_file(self, after):
         """I1 on the implementation: every client-owned offset holds the reference byte;
         once the download is done the file IS the reference."""
-        if self.closed():
+        if self.closed() or self.file_bad:
             return
         content = self.file_bytes()
         ref = self.ref.b
+        n_before = len(self.problems)
         bad = [i for i in self.ref.owned if i >= len(content) or content[i] != ref[i]]
         if bad:
             i = min(bad)
@@ -234,6 +236,8 @@ class ConsumerRun(object):
             self.problems.append(("temporary-file-longer-than-current-size", "after %r" % (after,), len(ref), len(content)))
         if self.c.current_size != len(ref):
             self.problems.append(("current-size-differs-from-reference", "after %r" % (after,), len(ref), self.c.current_size))
+        if len(self.problems) > n_before:
+            self.file_bad = True
 
     # ---- the operations
     def apply(self, op):
@@ -432,7 +436,8 @@ def gen_history(r, run, respect, max_client=20):
         k = r.choice(choices)
         if k == "chunk":
             rem = len(O) - run.pos
-            n = r.choice([0, 1, 1, 2, 3, 5, 8, 13, max(1, rem // 3), max(1, rem // 2), rem, rem + 3, r.randrange(1, rem + 1)])
+            n = r.choice([0, 1, 1, 2, 3, 5, 8, 13, r.randrange(1, max(2, rem // 2)), r.randrange(1, max(2, rem // 2)),
+                          r.randrange(1, rem + 1), rem if r.random() < 0.5 else rem + 3])
             run.apply(("chunk", n))
         elif k == "ow":
             off = pick_offset(r, run)
@@ -512,7 +517,7 @@ def part_a(ctx, tmpdir):
             terms.append(consumer_term(run))
             runs.append(run)
 
-    n = ctx.n(220, 3000)
+    n = ctx.n(220, 6000)
     for i in range(n):
         r = ctx.rng("A", i)
         d0 = r.choice([0, 1, 2, 3, 5, 8, 13, 20, 33, 50, 80, MAXLEN, r.randrange(0, MAXLEN + 1), r.randrange(0, 40)])
@@ -964,7 +969,7 @@ def part_b(ctx):
             ctx.oracle_fail(kind, what, case=run.case_record(), expected=exp, observed=obs)
         terms.append(handle_term(run))
         runs.append(run)
-    n = ctx.n(100, 1500)
+    n = ctx.n(100, 2500)
     for i in range(n):
         r = ctx.rng("B", i)
         d0 = r.choice([1, 5, 13, 20, 33, 50, 80, MAXLEN, r.randrange(1, MAXLEN + 1)])
